@@ -364,9 +364,8 @@ def is_one_euclidean(instance: OrdinalInstance):
 
             # add mapping of grey alternatives in G1
             if g:
-                for i in range(len(g[0])):
-                    tmp = g[0].pop()
-                    g[0].add(tmp)
+                # all voters rank these alternatives in the same order as the first voter
+                for i, tmp in enumerate(sorted(g[0], key=v_1.index)):
                     y[tmp + n - 1] = x_r + 6 * delta + (i / m) * delta
 
             for i in range(1, k):
